@@ -311,4 +311,34 @@ theorem split_conn (same : Nat → Nat → Prop) (E0 : List Edge) (E : List Edge
     apply merge_conn (Conn same E0) Conn.symm Conn.trans g e.1 e.2
       (Conn.edge (hE e List.mem_cons_self)) (Conn.refl _) (Conn.refl _) inv
 
+/-! ### input molecules: leftovers of earlier runs are not read -/
+
+theorem label_erase (i : Nat) (a : InAtom) : a.erase.label i = a.label i := rfl
+
+theorem unionFrom_erase (ms : List InMol) : ∀ (i off : Nat),
+    unionFrom i off (ms.map InMol.erase) = unionFrom i off ms := by
+  induction ms with
+  | nil => intro i off; rfl
+  | cons m ms ih =>
+    intro i off
+    simp only [List.map_cons, unionFrom, InMol.erase, List.length_map, List.map_map, ih]
+    congr 2
+
+/-- input-molecule number of every atom of the union, in union order -/
+def molTags : Nat → List InMol → List Nat
+  | _, [] => []
+  | i, m :: ms => List.replicate m.atoms.length i ++ molTags (i + 1) ms
+
+theorem unionFrom_mols (ms : List InMol) : ∀ (i off : Nat),
+    (unionFrom i off ms).1.map (·.mol) = molTags i ms := by
+  induction ms with
+  | nil => intro i off; rfl
+  | cons m ms ih =>
+    intro i off
+    simp only [unionFrom, molTags, List.map_append, List.map_map, ih]
+    congr 1
+    induction m.atoms with
+    | nil => rfl
+    | cons a l ihl => simp [List.replicate_succ, InAtom.label, ihl]
+
 end C10
